@@ -116,9 +116,10 @@ class Outcome:
 
 
 class Runner:
-    def __init__(self, ping_interval: float = 30.0, watchdog: float = 5.0) -> None:
+    def __init__(self, ping_interval: float = 30.0, watchdog: float = 5.0, cleanup_sleep: float = 0.0) -> None:
         self.ping_interval = ping_interval
         self.watchdog = watchdog
+        self.cleanup_sleep = cleanup_sleep  # the user's cleanup code takes this long (and releases the GIL)
         self.out = Outcome()
         self.cv = threading.Condition()
         self.released: Dict[int, str] = {}  # gate index -> action
@@ -153,6 +154,8 @@ class Runner:
                     return
                 k += 1
         finally:
+            if self.cleanup_sleep:
+                time.sleep(self.cleanup_sleep)
             out.finalized += 1
             with self.cv:
                 self.producer_done = True
@@ -219,8 +222,8 @@ class Runner:
             return ("hang", None)
 
 
-def run_schedule(schedule: str, ping_interval: float = 30.0, watchdog: float = 5.0) -> Outcome:
-    r = Runner(ping_interval, watchdog)
+def run_schedule(schedule: str, ping_interval: float = 30.0, watchdog: float = 5.0, cleanup_sleep: float = 0.0) -> Outcome:
+    r = Runner(ping_interval, watchdog, cleanup_sleep)
     out = r.out
     futures: List[Any] = []
 
